@@ -14,6 +14,7 @@ R17.2 append_char(ch, count) emits exactly count copies of ch (converted to the 
 R17.3 every public entry (ST::format x2, format_latin_1, printf x2, writef, _stfmt) constructs one writer over its format string and
       runs apply_format on it; the string forms return to_string(true, requested / default validation), format_latin_1
       to_string(false, assume_valid)
+R17.5 call order: a writer that stages bytes in its own storage flushes them before it hands bytes of a later call to the sink directly
 R17.4 operator<<(basic_ostream<T>&, const ST::string&) inserts basic_string<T>(b.data(), b.size()) of the buffer filled by
       to_buffer(b); operator>>(basic_istream<T>&, ST::string&) sets the string from exactly the token extracted into a
       basic_string<T> - (c_str(), size()) - with the default validation
@@ -129,6 +130,50 @@ def differs(st, d):
     return '?'
 
 
+CLASS_FILL = {}
+
+
+def staged_symbols(outs):
+    """Symbols of the writer's own fields that index its own storage when bytes are staged there (copy / fill into the writer object at
+    base + field): the count(s) of pending bytes of a buffering writer."""
+    fills = set()
+    for o in outs:
+        for e in o.st.events:
+            if e[0] in ('copy', 'fill') and isinstance(e[2], PtrV) and e[2].obj == 'W':
+                from ..terms import base_atoms
+                for a in base_atoms(e[2].off):
+                    if isinstance(a, str) and a.startswith('W.'):
+                        fills.add(a)
+    return fills
+
+
+def order_check(I, s2, evs, fills, direct, probs, und, what):
+    """R17.5: bytes reach the sink in call order - a writer that stages bytes in its own storage hands them over (flushes) before it
+    gives the bytes of a later call to the sink directly."""
+    if not fills:
+        return
+    flushed = False
+    for e in evs:
+        if e[0] != 'sink':
+            continue
+        a = e[3]
+        ptrs = [x for x in a if isinstance(x, PtrV)]
+        if any(x.obj == 'W' for x in ptrs[:2]) and e[1] in ('fwrite', 'write', 'ss-append'):
+            flushed = True
+            continue
+        if direct(e) and not flushed:
+            for fa in sorted(fills):
+                if s2.is_eq0(Lin.atom(fa)) is True:
+                    continue
+                env = s2.find_model([Lin.atom(fa)], lambda v: v[0] >= 1)
+                if env is not None:
+                    probs.append('%s hands bytes of this call to the sink while bytes staged by earlier calls may still be pending (%s of them): the '
+                                 'sink sees them out of call order; witness %s' % (what, fa, own.fmt_env(env)))
+                else:
+                    und.append('%s: a direct hand-over while staged bytes may be pending (%s) - not decided' % (what, fa))
+                return
+
+
 def appends(run, m, F, E):
     n = 0
     for name in F.lib:
@@ -150,8 +195,12 @@ def appends(run, m, F, E):
             continue
         probs, und = [], []
         nret = 0
+        fills = staged_symbols(outs)
+        CLASS_FILL[mt.group(1)] = fills
         for o in outs:
             s2 = o.st
+            if o.kind in ('ret', 'backedge'):
+                order_check(I, s2, s2.events, fills, lambda e: any(isinstance(x, PtrV) and x.obj == 'DATA' for x in e[3]), probs, und, 'append')
             if o.kind == 'backedge':
                 und.append('hands the bytes over in a loop: not one of the recognised idioms')
                 continue
@@ -289,8 +338,11 @@ def append_chars(run, m, F, E):
         def is_ch(s2, v):
             return isinstance(v, IntV) and set(base_atoms(v.lin)) == set(cha)
         nb = nr = 0
+        fills = set(CLASS_FILL.get(mt.group(1), set())) | staged_symbols(outs)
         for o in outs:
             s2 = o.st
+            if o.kind in ('ret', 'backedge'):
+                order_check(I, s2, s2.events, fills, lambda e: e[1] in ('fputc', 'put'), probs, und, 'append_char')
             sinks_all = [e for e in s2.events if e[0] == 'sink']
             if cls == 'string_format_writer':
                 if o.kind != 'ret':
